@@ -332,6 +332,38 @@ def _straddles(lines, n, idx):
     return False
 
 
+def job_selftest(seed):
+    """concrete cross-check on the real compiled code: objective, bounds, stored matrices, loader"""
+    rnd = random.Random(seed)
+    cnt = 0
+    for _ in range(60):
+        n = rnd.randint(1, 5)
+        D = [[rnd.choice([0, 1, 5, 130, 70000]) for _ in range(n)] for _ in range(n)]
+        F = [[rnd.choice([0, 0, 2, 300]) for _ in range(n)] for _ in range(n)]
+        x = list(range(n))
+        rnd.shuffle(x)
+        w = dict(D=D, F=F, x=x)
+        bad, info = replay(w)
+        cnt += 1
+        if bad:
+            w["observed"] = info
+            return violated("objective_and_bounds", "qap/objective.py + qap/instance.py", f"concrete instance: {w}", w, validated=cnt, paths=cnt)
+        nums = [v for r in F for v in r] + [v for r in D for v in r]
+        lines = [str(n)]
+        k = 0
+        while k < len(nums):
+            step = rnd.randint(1, 4)
+            lines.append(" ".join(map(str, nums[k:k + step])))
+            k += step
+        wl = dict(clause="loader", n=n, lines=lines)
+        bad, info = replay_loader(wl)
+        cnt += 1
+        if bad:
+            wl["observed"] = info
+            return violated("loader", "qap/instance.py:from_qaplib_stream", f"QAPLIB text {lines} -> {info}", wl, validated=cnt, paths=cnt)
+    return held(validated=cnt, paths=cnt, queries={}, summary=f"self-test: {cnt} concrete instances / files through the real compiled code agree with the definitions")
+
+
 def flow_pool(n, seed, count):
     rnd = random.Random(1000 + seed)
     pool = [[[0 if i == j else (i + 2 * j + 1) % 4 for j in range(n)] for i in range(n)],
@@ -345,7 +377,7 @@ def flow_pool(n, seed, count):
 def jobs(tier):
     import os
     seed = int(os.environ.get("VERIF_SEED", "0") or 0)
-    js = []
+    js = [Job("selftest", job_selftest, dict(seed=seed), "selftest", 600)]
     for k, fl in enumerate(flow_pool(2, seed, 4 if tier == "quick" else 12)):
         js.append(Job(f"instance/n2/flows{k}", job_exact, dict(n=2, emax=10 ** 6, check_bounds=True, flows_const=fl), "objective_and_bounds", 900))
         js.append(Job(f"instance/n2/dists{k}", job_exact, dict(n=2, emax=10 ** 6, check_bounds=True, dist_const=fl), "objective_and_bounds", 900))
